@@ -272,6 +272,36 @@ def one_grun(inp, d, tag, mode, ref, model):
     return res
 
 
+def run_in_subprocess(kind, inp, d, tag, mode, paths, hist, hashseed):
+    """one run in a fresh interpreter with its own PYTHONHASHSEED (thorough tier): outputs must not
+    depend on hash iteration order either"""
+    import json
+    import subprocess
+    import sys
+
+    job = {"kind": kind, "inp": inp, "d": d, "tag": tag, "mode": mode, "paths": paths, "hist": hist}
+    env = dict(os.environ, PYTHONHASHSEED=str(hashseed))
+    p = subprocess.run([sys.executable, "-m", "harness.c10"], input=json.dumps(job), capture_output=True, text=True,
+                       env=env, cwd=os.path.dirname(os.path.dirname(os.path.abspath(__file__))), timeout=300)
+    for line in reversed(p.stdout.splitlines()):
+        if line.startswith("RESULT "):
+            return json.loads(line[7:])
+    raise RuntimeError("subprocess run failed: " + p.stderr[-300:])
+
+
+def _subprocess_main():
+    import json
+    import sys
+
+    job = json.loads(sys.stdin.read())
+    disturb(job["hist"])
+    if job["kind"] == "g":
+        r = one_grun(job["inp"], job["d"], job["tag"], job["mode"], *job["paths"])
+    else:
+        r = one_prun(job["inp"], job["d"], job["tag"], job["mode"], *job["paths"])
+    print("RESULT " + json.dumps(r))
+
+
 def run_genotype(inp):
     d = tempfile.mkdtemp(prefix="hv_c10g_")
     try:
@@ -279,10 +309,14 @@ def run_genotype(inp):
         model = write_config(cfg, d)
         ref = write_reference(inp, d)
         mA, mB = {"py": ("py", "py"), "cli": ("cli", "cli"), "mixed": ("py", "cli")}[inp["mode"]]
-        disturb(inp["histA"])
-        a = one_grun(inp, d, "A", mA, ref, model)
-        disturb(inp["histB"])
-        b = one_grun(inp, d, "B", mB, ref, model)
+        if inp.get("xproc"):
+            a = run_in_subprocess("g", inp, d, "A", mA, [ref, model], inp["histA"], inp["xproc"][0])
+            b = run_in_subprocess("g", inp, d, "B", mB, [ref, model], inp["histB"], inp["xproc"][1])
+        else:
+            disturb(inp["histA"])
+            a = one_grun(inp, d, "A", mA, ref, model)
+            disturb(inp["histB"])
+            b = one_grun(inp, d, "B", mB, ref, model)
         return {"ref": seeded_state_hash(inp["seed"]) if inp["seed"] is not None else None, "a": a, "b": b}
     finally:
         shutil.rmtree(d, ignore_errors=True)
@@ -307,7 +341,19 @@ class GenotypeRel(Relation):
             if k < 2 * len(SEEDS):          # every named seed through both entry points, every run
                 c["seed"] = SEEDS[k % len(SEEDS)]
                 c["mode"] = "py" if k < len(SEEDS) else "cli"
+            if tier == "thorough" and k % 10 == 9:     # two fresh interpreters with different hash seeds
+                c["xproc"] = [int(rng.integers(1, 1000)), int(rng.integers(1001, 2000))]
             out.append(c)
+        return out
+
+    def exhaustive(self, tier):
+        rng = np.random.default_rng(10)
+        out = []
+        for seed in SEEDS:
+            for mode in ("py", "cli"):
+                c = gen_gconfig(rng)
+                c.update(seed=seed, mode=mode, xproc=[1, 2])
+                out.append(c)
         return out
 
     def run_impl(self, inp):
@@ -335,6 +381,8 @@ class GenotypeRel(Relation):
         for k in ("pop_field", "sample_field", "norepl"):
             if inp[k]:
                 out.append(k)
+        if inp.get("xproc"):
+            out.append("two-interpreters-different-PYTHONHASHSEED")
         if inp["cfg"]["region"]:
             out.append("region")
         if isinstance(obs, dict) and "a" in obs:
@@ -531,10 +579,14 @@ def run_phenotype(inp):
     try:
         gt, hp = write_pinputs(inp, d)
         mA, mB = {"py": ("py", "py"), "cli": ("cli", "cli"), "mixed": ("py", "cli")}[inp["mode"]]
-        disturb(inp["histA"])
-        a = one_prun(inp, d, "A", mA, gt, hp)
-        disturb(inp["histB"])
-        b = one_prun(inp, d, "B", mB, gt, hp)
+        if inp.get("xproc"):
+            a = run_in_subprocess("p", inp, d, "A", mA, [gt, hp], inp["histA"], inp["xproc"][0])
+            b = run_in_subprocess("p", inp, d, "B", mB, [gt, hp], inp["histB"], inp["xproc"][1])
+        else:
+            disturb(inp["histA"])
+            a = one_prun(inp, d, "A", mA, gt, hp)
+            disturb(inp["histB"])
+            b = one_prun(inp, d, "B", mB, gt, hp)
         ref = gen_state_hash(np.random.default_rng(inp["seed"])) if inp["seed"] is not None else None
         return {"ref": ref, "a": a, "b": b}
     finally:
@@ -560,7 +612,19 @@ class PhenotypeRel(Relation):
                 c["seed"] = SEEDS[k % len(SEEDS)]
                 c["mode"] = "py" if k < len(SEEDS) else "cli"
                 c["reps"] = max(c["reps"], 2)
+            if tier == "thorough" and k % 10 == 9:
+                c["xproc"] = [int(rng.integers(1, 1000)), int(rng.integers(1001, 2000))]
             out.append(c)
+        return out
+
+    def exhaustive(self, tier):
+        rng = np.random.default_rng(11)
+        out = []
+        for seed in SEEDS:
+            for mode in ("py", "cli"):
+                c = gen_pconfig(rng)
+                c.update(seed=seed, mode=mode, xproc=[1, 2], reps=3)
+                out.append(c)
         return out
 
     def run_impl(self, inp):
@@ -660,3 +724,7 @@ LEVEL_NOTE = (
     "double runs (byte/content equality), not by proof; hash-iteration determinism relies on PYTHONHASHSEED."
 )
 TECHNIQUE = "Coq proof over an abstract generator (Section variables) + vm_compute-evaluated double-run correspondence"
+
+
+if __name__ == "__main__":
+    _subprocess_main()
